@@ -42,9 +42,12 @@ IndexOf == [name |-> "byName", db |-> "byDBName", label |-> "byLabel", mcc2 |-> 
             mcc3v0 |-> "byMcc3IdEndfbVII0", mcc3v1 |-> "byMcc3IdEndfbVII1", mcnp |-> "byMcnpId", azs |-> "byAAAZZZSId"]
 ColSet == { IdCols[j] : j \in 1..Len(IdCols) }
 
-(* natural abundances are tabulated in percent with two to four decimals (Nuclear Wallet Cards via RIPL-3); the six calcium
-   values sum to 100.003 %.  armi's own pinned tests accept 1e-4; so does this clause. *)
-AbundTol == 100000
+(* The abundances of nuclides.dat are single-precision renderings (9.99850010000e-01 is float32(0.99985)) of values tabulated
+   to 1e-6 or finer (He-3: 1.37e-06): each carries a relative error of at most 2^-24 = 6e-8, an element has at most ten natural
+   isotopes, so a correctly normalised element is within 6e-7 of one.  The shipped table confirms it: 83 of the 84 natural
+   elements are within 4e-8.  AbundTol = 1e-6 is the tolerance the data support.  (armi's own tests accept 5e-5; calcium, whose
+   six wallet-card percentages sum to 100.003, is 3.0e-5 off and is reported for what it is, a defect of the data.) *)
+AbundTol == 1000
 Unit == 1000000000
 
 (* detail is rendered as a string: failure records of different clauses live in one set and must be comparable *)
